@@ -12,7 +12,7 @@ import os
 from mc import core
 from mc import values as V
 from mc.ref import fields as R
-from mc.values import F, Y, T, D, OBJ
+from mc.values import F, Y, T, D, OBJ, BA
 
 PROP = "C05"
 LEVEL = "model_checking"
@@ -26,7 +26,7 @@ ASSUMPTIONS = [
     "SecureField declares no constraint on non-string values: only strings are compared",
 ]
 
-WRONG = [None, True, False, 0, 1, -1, 2 ** 70, F(1.5), F("inf"), F("nan"), "", "a", Y(b"a"), [], [1], T(1), D(),
+WRONG = [None, True, False, 0, 1, -1, 2 ** 70, F(1.5), F("inf"), F("nan"), "", "a", Y(b"a"), BA(b"a"), [], [1], T(1), D(),
          D(("a", 1)), OBJ]
 
 
